@@ -717,8 +717,39 @@ class FuncAnalyzer:
             return self.call_expr(e, env, fi)
         return Topv('expression %s' % type(e).__name__)
 
+    def sum_of_comprehension(self, e, env, fi):
+        """sum(f(k) for k in <iteration>): exact over a small constant iteration, count * [lo, hi] over range(n)."""
+        c = e.args[0]
+        g = c.generators[0]
+        elems = self.const_elements(g.iter, env, fi)
+        inner = dict(env)
+        if elems is not None:
+            total = Iv(0, 0)
+            for el in elems:
+                self.assign(g.target, el, inner)
+                v = self.expr(c.elt, inner, fi)
+                if not isinstance(v, Iv):
+                    return Topv('sum of non-integers')
+                total = binop(ast.Add(), total, v)
+            return total
+        it = self.expr(g.iter, env, fi)
+        if isinstance(it, Tupv) and len(it.items) == 1 and isinstance(it.items[0], tuple) and it.items[0][0] == 'range' \
+                and isinstance(g.target, ast.Name):
+            rv = it.items[0][1]
+            if rv.finite() and rv.lo >= 0:
+                inner[g.target.id] = rv
+                v = self.expr(c.elt, inner, fi)
+                if isinstance(v, Iv) and v.finite():
+                    n = rv.hi + 1
+                    return Iv(min(0, v.lo * n), max(0, v.hi * n))
+        return Topv('sum over an unbounded iteration')
+
     def call_expr(self, e, env, fi):
         f = e.func
+        if isinstance(f, ast.Name) and f.id == 'sum' and len(e.args) == 1 and not e.keywords and \
+                isinstance(e.args[0], (ast.GeneratorExp, ast.ListComp)) and len(e.args[0].generators) == 1 and \
+                not e.args[0].generators[0].ifs:
+            return self.sum_of_comprehension(e, env, fi)
         args = [self.expr(a, env, fi) for a in e.args]
         kwargs = {k.arg: self.expr(k.value, env, fi) for k in e.keywords}
         # bin(x).count('1')
